@@ -150,6 +150,19 @@ def apply_body_rules(rw, src, f, body_open, body_close, loops, cfg):
                 rw.insert_after(lp["body_open"] - 1, ") + 1", "R21-inclusive-range")
                 break
             k += 1
+    # R22: `m[(i, j)] = e;` on a shim matrix type -> `m.vx_set((i, j), e);`  (IndexMut assignment spelled as a call)
+    for name in f.opts.get("index_assign", ()):
+        for q in range(body_open + 1, body_close):
+            if toks[q].kind == "ident" and toks[q].text == name and toks[q + 1].text == "[":
+                cl = src.pairs[q + 1]
+                if toks[cl + 1].text != "=":
+                    continue
+                e = cl + 2
+                while toks[e].text != ";":
+                    e = src.pairs[e] + 1 if toks[e].text in ("(", "[", "{") else e + 1
+                rw.replace(q + 1, q + 2, ".vx_set(", "R22-index-assign")
+                rw.replace(cl, cl + 2, ",", "R22-index-assign")
+                rw.insert(e, ")", "R22-index-assign")
     # R12: `for x in &mut E {`  ->  `for x in E.iter_mut() {`   (IntoIterator for &mut Vec<T> is iter_mut())
     for lp in loops:
         if lp["kind"] == "for" and toks[lp["in"] + 1].text == "&" and toks[lp["in"] + 2].text == "mut":
